@@ -822,3 +822,35 @@ def consume_after_wake(chk, rule, f, event, what):
             ok, why = False, "an await lies between the wake-up and the clear"
     chk.ob(rule, "%s: %s is consumed right after the wake-up (%s)" % (f.qualname, event, what), ok, f.where(clears[0].ast), detail=why, construct=f.ident,
            text="wake flag %s %s" % (event, why or "consumed after wake-up"))
+
+
+def split_request(chk, rule, f, total, what):
+    """"Take from each device what it has but not more than is still missing, then request the rest": inside the loop the amount is
+    max(min(device.available_balls, TOTAL - ADDED), 0), ADDED is *added to* by exactly that amount after it was used, and after the
+    loop the remainder TOTAL - ADDED is requested.  Overwriting ADDED, or sizing by something else, requests more or fewer balls
+    than were promised."""
+    cfg = f.cfg()
+    accs = [x for x in walk_local(f.node) if isinstance(x, ast.AugAssign) and isinstance(x.op, ast.Add) and isinstance(x.target, ast.Name) and isinstance(x.value, ast.Name)]
+    asg = [x for x in walk_local(f.node) if isinstance(x, ast.Assign) and isinstance(x.targets[0], ast.Name) and isinstance(x.value, ast.Name) and
+           any(isinstance(y, ast.For) and x in ast.walk(y) for y in walk_local(f.node))]
+    ok = False
+    detail = "no `added += amount` accumulation found"
+    for x in accs:
+        added, amount = x.target.id, x.value.id
+        d = [a for a in walk_local(f.node) if isinstance(a, ast.Assign) and src(a.targets[0]) == amount]
+        lp = [y for y in walk_local(f.node) if isinstance(y, ast.For) and any(z is x for z in ast.walk(y))]
+        if len(d) != 1 or not lp:
+            continue
+        dev = src(lp[-1].target)
+        want = "max(min(%s.available_balls,%s-%s),0)" % (dev, total, added)
+        got = src(d[0].value).replace(" ", "")
+        rest = [c for c in f.calls() if not (isinstance(c.func, ast.Name) and c.func.id in ("max", "min")) and any(src(a).replace(" ", "") in ("%s-%s" % (total, added), "max(%s-%s,0)" % (total, added))
+                                            for a in list(c.args) + [k.value for k in c.keywords]) and not any(z is c for z in ast.walk(lp[-1]))]
+        used = [c for c in ast.walk(lp[-1]) if isinstance(c, ast.Call) and any(src(a) == amount for a in list(c.args) + [k.value for k in c.keywords])]
+        init = [a for a in walk_local(f.node) if isinstance(a, ast.Assign) and src(a.targets[0]) == added]
+        only_acc = len(init) == 1 and const_value(init[0].value) == 0 and not any(z is init[0] for z in ast.walk(lp[-1]))
+        ok = got == want.replace(" ", "") and len(rest) == 1 and bool(used) and only_acc
+        detail = "amount %s; remainder requested %d time(s); %s starts at 0 and is only added to: %s" % (got, len(rest), added, only_acc)
+        break
+    chk.ob(rule, "%s: every source gives what it has but not more than is still missing, the running total is added to, the remainder is requested (%s)" %
+           (f.qualname, what), ok, f.where(), detail=detail, construct=f.ident, text="split request in " + f.name)
